@@ -160,17 +160,17 @@ class sptensor:
             raise ValueError("If subs or vals are provided they must both be provided.")
 
         if shape is None:
-            shape = parse_shape(np.max(subs, axis=0) + 1)
+            shape = parse_shape(np.max(subs, axis=0).astype(np.int64) + 1)
         else:
             shape = parse_shape(shape)
 
         if subs.size > 0:
             assert subs.shape[1] == len(shape) and np.all(
-                (np.max(subs, axis=0) + 1) <= shape
+                (np.max(subs, axis=0).astype(np.int64) + 1) <= shape
             ), (
                 f"Shape provided was incorrect to fit all subscripts; "
                 f"max subscripts are "
-                f"{tuple(np.max(subs, axis=0) + 1)}"
+                f"{tuple(np.max(subs, axis=0).astype(np.int64) + 1)}"
             )
         else:
             # In case user provides an empty array in weird format
@@ -345,7 +345,7 @@ class sptensor:
             shape = parse_shape(shape)
             tt_sizecheck(shape, False)
         else:
-            shape = parse_shape(np.max(subs, axis=0) + 1)
+            shape = parse_shape(np.max(subs, axis=0).astype(np.int64) + 1)
 
         # Check for wrong input
         if subs.size > 0 and subs.shape[1] > len(shape):
